@@ -282,7 +282,15 @@ def execute(run):
     np.random.seed(run['g0'] % (2**32))
     model, train_df, R_true, fit_out = gmvlib.build_fitted(run)
     if fit_out[0] != 'ok':
+        # every generated table is a finite numeric table of the quantified kind: a fit that
+        # raises leaves nothing to sample from
         ctx.probes['fit_raised:' + outcome_class(fit_out)] += 1
+        ctx.nontrivial = True
+        ctx.violate('fit_succeeds_on_numeric_table',
+                    'copulas.multivariate.gaussian.GaussianMultivariate.fit',
+                    'fit raised %s: %s' % (outcome_class(fit_out), str(fit_out[1])[:160]),
+                    exc=outcome_class(fit_out), config=run['config']['form'],
+                    margs=sorted(set(run['table']['margs'])))
         ctx.event('fit', outcome_class(fit_out))
         return ctx.result()
     types = tuple(_uni_type(u) + ('*' if gmvlib.is_constant_uni(u) else '')
